@@ -18,7 +18,7 @@ RULE = ("30 keys x 7 degrees x {triad, seventh} x {triads()/sevenths(), function
         "substitute x depth 0..2 on every numeral x suffix x prefix -3..+3 (enumerated, in 5 major keys quick / 15 "
         "thorough) and at every index of Hypothesis progressions of length 1..4. Non-trivial: key with accidentals, or "
         "prefix != 0, or non-empty suffix, or depth > 0."
-        ' Also: whole progressions with repeated degrees checked element-wise; negative indices; the documented recursion relation of substitute (depth d = depth 0 plus the depth d-1 substitutions of each result); every attribute name of the theory modules and Hypothesis ASCII text as unrecognised numerals.')
+        ' Also: whole progressions with repeated degrees checked element-wise; negative indices; the documented recursion relation of substitute (depth d = depth 0 plus the depth d-1 substitutions of each result); every attribute name of the theory modules and Hypothesis ASCII text as unrecognised numerals; every result of a depth-0 substitution is fed to the five rules again (inputs with up to six accidentals).')
 ASSUMPTIONS = [
     "chord notes are compared on letter + pitch class + unmixed + <= 6 accidentals against own key notes / formulas",
     "chord -> function is asserted in major keys only; the expected numeral is looked up case-insensitively among the "
@@ -190,8 +190,8 @@ def _triad_set(key, num, acc):
     return set(R.shifted_items(R.diatonic(key, NUM.index(num), 3), acc))
 
 
-def check_rule(ctx, case):
-    rule, prog, idx, arg, key = case  # arg: ignore_suffix (bool) for the five rules, depth for 'general'
+def _rule_semantics(ctx, rule, prog, idx, arg, key):
+    """one substitution call: caller's list untouched, well-formed results, and what the rule promises"""
     f = getattr(progressions, RULES[rule])
     mine = copy.deepcopy(prog)
     before = copy.deepcopy(prog)
@@ -227,13 +227,34 @@ def check_rule(ctx, case):
                 ctx.check(len(res) in (0, 3), sig + "/count", lambda: "%r -> %r" % (prog[idx], res))
             for r, n1, a1, s1, ch in parsed:
                 exp = (T.letter_up(prev[0], steps), (prev[1] + semis) % 12)
-                ctx.check(T.matches(ch[0], exp[0], exp[1]), sig + "/root",
+                # the six-accidental bound on spellings is asserted inside the stated prefix range only
+                ctx.check(T.matches(ch[0], exp[0], exp[1], max_acc=6 if abs(a1) <= 3 else None), sig + "/root",
                           lambda: "%r -> %r in %s: root %r, expected letter %s pitch class %d" % (prog[idx], r, key, ch[0], exp[0], exp[1]))
                 if rule == "diminished-for-diminished":
                     prev = exp
                     ctx.check(s1 == (s0 or "dim"), sig + "/suffix", lambda: "%r -> %r" % (prog[idx], r))
                 elif not arg:
                     ctx.check(SUFFIX_MAP[rule].get(s0) == s1, sig + "/suffix", lambda: "%r -> %r" % (prog[idx], r))
+        elif rule == "general" and arg == 0 and s0 in ("dim", "dim7"):
+            # the general substitute applies the same promise: its diminished substitutes (same suffix, in order) cycle by
+            # minor thirds - two letters and three semitones further each time, starting from the chord that is replaced
+            prev = _root_item(key, n0, a0)
+            for r, n1, a1, s1, ch in parsed:
+                if s1 != s0:
+                    continue
+                exp = (T.letter_up(prev[0], 2), (prev[1] + 3) % 12)
+                ctx.check(T.matches(ch[0], exp[0], exp[1], max_acc=None), sig + "/diminished-cycle",
+                          lambda: "%r -> %r in %s: diminished substitute %r has root %r, expected letter %s pitch class %d" % (
+                              prog[idx], res, key, r, ch[0], exp[0], exp[1]))
+                prev = exp
+    return res, nres, (n0, a0, s0)
+
+
+def check_rule(ctx, case):
+    rule, prog, idx, arg, key = case  # arg: ignore_suffix (bool) for the five rules, depth for 'general'
+    res, nres, (n0, a0, s0) = _rule_semantics(ctx, rule, prog, idx, arg, key)
+    f = getattr(progressions, RULES[rule])
+    sig = "substitute/" + rule
     if rule == "general" and arg > 0 and not failed(res) and isinstance(res, list):
         # documented recursion: "if depth > 0 the substitutions of each result will be recursively added as well"
         r0 = ctx.ok(sig, f, copy.deepcopy(prog), idx, 0)
@@ -242,6 +263,13 @@ def check_rule(ctx, case):
             for x in r0:
                 p2 = copy.deepcopy(prog)
                 p2[idx] = x
+                # the results are substitution inputs themselves (with up to six accidentals by now): each of the five rules
+                # must keep its promise on them as well
+                seen = ctx.__dict__.setdefault("_c08_seen", set())
+                if isinstance(x, str) and (x, key) not in seen and R.parse_numeral(x)[0] in NUM:
+                    for r5 in RULES:
+                        _rule_semantics(ctx, r5, copy.deepcopy(p2), idx, 0 if r5 == "general" else False, key)
+                    seen.add((x, key))  # only inputs that passed are skipped later: a failing one fails again when replayed
                 sub = ctx.ok(sig, f, p2, idx, arg - 1)
                 if failed(sub):
                     exp = None
